@@ -36,6 +36,20 @@ def diff_case(a, b, props):
             out.append(('C01', 'patch-crash:' + exc_site(exc), 'patch_notebook raised ' + exc_summary(exc)))
         if 'C13' in props and (canon(a) != sa or canon(d) != sd):
             out.append(('C13', 'mutated:patch_notebook', 'patch_notebook modified the notebook or the diff passed in'))
+        # "the diff is empty exactly when A and B are identical", also when the two notebooks SHARE objects: the patched notebook
+        # (which re-uses the values carried by the diff, i.e. B's own objects) against B, and a notebook against itself
+        for label, x, y in (('patched result vs B', locals().get('p'), b), ('A vs the same object A', a, a)):
+            if x is None:
+                continue
+            try:
+                d2 = diff_notebooks(x, y)
+                if d2 and canon(x) == canon(y):
+                    out.append(('C01', 'empty-iff-shared', 'diff of identical notebooks that share objects (%s) is not empty' % label))
+            except Exception as exc:
+                out.append(('C01', 'crash-shared:' + exc_site(exc), 'diff_notebooks of identical notebooks that share objects (%s) raised %s' % (label, exc_summary(exc))))
+            if canon(b) != sb or canon(a) != sa:
+                out.append(('C01', 'shared-mutated', 'diffing notebooks that share objects (%s) changed a notebook' % label))
+                break
         try:
             ind = specs.apply(to_plain(a), pd)
             if canon(ind) != sb:
